@@ -634,7 +634,7 @@ pub fn load_byte(vm: &Thread) -> Result<ExternModule> {
             from_le => primitive!(1, std::byte::prim::from_le),
             to_be => primitive!(1, std::byte::prim::to_be),
             to_le => primitive!(1, std::byte::prim::to_le),
-            pow => primitive!(2, std::byte::prim::wrapping_pow),
+            pow => primitive!(2, "std.byte.prim.pow", |l: u8, r: u32| l.wrapping_pow(r)),
             saturating_add => primitive!(2, std::byte::prim::saturating_add),
             saturating_sub => primitive!(2, std::byte::prim::saturating_sub),
             saturating_mul => primitive!(2, std::byte::prim::saturating_mul),
@@ -687,7 +687,7 @@ pub fn load_int(vm: &Thread) -> Result<ExternModule> {
             from_le => primitive!(1, std::int::prim::from_le),
             to_be => primitive!(1, std::int::prim::to_be),
             to_le => primitive!(1, std::int::prim::to_le),
-            pow => primitive!(2, std::int::prim::wrapping_pow),
+            pow => primitive!(2, "std.int.prim.pow", |l: VmInt, r: u32| l.wrapping_pow(r)),
             abs => primitive!(1, "std.int.prim.abs", |i: VmInt| i.wrapping_abs()),
             rem => primitive!(2, "std::int::prim::rem", int::rem),
             rem_euclid => primitive!(2, "std::int::prim::rem_euclid", int::rem_euclid),
